@@ -173,15 +173,19 @@ GreedyStep ==
             /\ head' = head + 1
             /\ IF s \in DOMAIN visited
                THEN UNCHANGED <<visited, results, relLog, getLog, capLog, pc, table>>
-               ELSE \E order \in Perms(RelsOf(s)) :
-                      LET st0 == [vis |-> [x \in DOMAIN visited \cup {s} |-> IF x = s THEN 0 ELSE visited[x]],
-                                  res |-> IF s \in Nodes THEN Append(results, [id |-> s, depth |-> 0]) ELSE results,
-                                  get |-> Append(getLog, s)]
-                          st == GreedyRelations(st0, s, order)
-                      IN /\ visited' = st.vis /\ results' = st.res /\ getLog' = st.get
-                         /\ relLog' = Append(relLog, s)
-                         /\ capLog' = Append(capLog, Cardinality(DOMAIN visited) + 1)
-                         /\ pc' = pc /\ table' = table
+               ELSE LET st0 == [vis |-> [x \in DOMAIN visited \cup {s} |-> IF x = s THEN 0 ELSE visited[x]],
+                                res |-> IF s \in Nodes THEN Append(results, [id |-> s, depth |-> 0]) ELSE results,
+                                get |-> Append(getLog, s)]
+                    IN IF Cardinality(DOMAIN st0.vis) >= cap
+                       THEN \* node cap reached: the seed is kept, nothing is expanded
+                            /\ visited' = st0.vis /\ results' = st0.res /\ getLog' = st0.get
+                            /\ UNCHANGED <<relLog, capLog, pc, table>>
+                       ELSE \E order \in Perms(RelsOf(s)) :
+                              LET st == GreedyRelations(st0, s, order)
+                              IN /\ visited' = st.vis /\ results' = st.res /\ getLog' = st.get
+                                 /\ relLog' = Append(relLog, s)
+                                 /\ capLog' = Append(capLog, Cardinality(DOMAIN st0.vis))
+                                 /\ pc' = pc /\ table' = table
        ELSE /\ pc' = "assemble" /\ table' = AsmTableOf(results)
             /\ UNCHANGED <<visited, head, results, relLog, getLog, capLog>>
     /\ UNCHANGED <<g, seeds, strat, limit, cap, queue, updated, budget, prof, sel, tot>>
@@ -223,7 +227,6 @@ Inv_Depth == \A k \in 1..Len(results) : results[k].depth <= (IF strat = "graph" 
 Inv_ExpandAboveLimit == \A k \in 1..Len(relLog) : visited[relLog[k]] < limit
 \* node cap: no VGetRelations call once |visited| >= MaxExpansionNodes
 Inv_Cap == \A k \in 1..Len(capLog) : capLog[k] < cap
-Inv_CapGraph == (strat = "graph") => Inv_Cap
 \* budget
 Inv_Budget == (pc = "done") => tot <= budget
 \* the same for every tabulated budget/profile/document order, evaluated where the expansion ends
